@@ -180,13 +180,30 @@ def make_dpng(le, record):
 
 
 class OptData:
-    def __init__(self, value):
-        self.value = value
+    """Payload of an interface option: the model's struct_unpack hands out the value; any other decoder (int.from_bytes, indexing, a loop
+    over the bytes) sees the bytes of its two's-complement encoding in the file's byte order."""
+    def __init__(self, value, width=1, le=True):
+        self.value, self.width, self.le = value, width, le
+
+    def _bytes(self):
+        from tlv.sx.core import SymInt
+        v = self.value
+        order = "little" if self.le else "big"
+        return (v & ((1 << (8 * self.width)) - 1)).to_bytes(self.width, order) if isinstance(v, (SymInt, int)) else v
+
+    def __iter__(self):
+        return iter(self._bytes())
+
+    def __len__(self):
+        return self.width
+
+    def __getitem__(self, i):
+        return self._bytes()[i]
 
 
 class Opt:
-    def __init__(self, code, value):
-        self.code, self.data = code, OptData(value)
+    def __init__(self, code, value, width=1, le=True):
+        self.code, self.data = code, OptData(value, width, le)
 
 
 def _run_reader(cfg):
@@ -206,7 +223,7 @@ def _run_reader(cfg):
         dd.DecryptionSecretBlock, dd.DecryptionSecretBlockLE = DsbBE, DsbLE
         res = sym_int("if_tsresol", -128, 127)          # struct 'b': signed byte
         off = sym_int("if_tsoffset", -(1 << 31), (1 << 31) - 1)
-        idb = {"type": IDB, "opts": [Opt(9, res), Opt(14, off)], "linktype": 1, "snaplen": 65535}
+        idb = {"type": IDB, "opts": [Opt(9, res, 1, le), Opt(14, off, 8, le)], "linktype": 1, "snaplen": 65535}
         blocks = [{"type": SHB}, idb]
         want = []
         for i, kind in enumerate(cfg["layout"]):
